@@ -817,10 +817,15 @@ class CstStatementDeserializer:
                 # parse_assertion resolves against the pre-rename source, so
                 # the assertion's source still carries the original variable
                 # name; retarget it to the fresh var_N name actually bound by
-                # the statement it is attached to.
+                # the statement that defines the variable.
                 if bound_stmt.bound_variable is not None:
                     assertion.source = bound_stmt.bound_variable
-                bound_stmt.assertions.append(assertion)
+                # An assertion states what holds *after the statement it follows*
+                # (that is also where the exporter renders a statement's
+                # assertions), which need not be the statement that bound the
+                # variable: ``s = Stack(); s.push(1); assert len(s) == 1`` must
+                # not become an assertion on ``s = Stack()``.
+                state.testcase.get_statement(state.testcase.size() - 1).assertions.append(assertion)
             return Disposition.ASSERTION_LIFTED
 
         names = _RootNameCollector.collect(small)
